@@ -4,6 +4,7 @@
    writer to `decode = interp` by the C01 oracle on every case, the reader to `present o decode` by
    C02. Proved here: the composition on the models for primitive columns. *)
 From Verif Require Import Builder Builder_proofs Reader Reader_proofs Doc Refine_proofs Wf_proofs.
+From Verif Require Import Tracer Nested_total Fits FromType FromType_proofs Agree TypeFits.
 Local Open Scope nat_scope.
 
 (* Full-strength statement (kept visible) *)
@@ -60,5 +61,25 @@ Example C04_example :
   end.
 Proof. vm_compute. reflexivity. Qed.
 
+(* ---- "the schema traced from the type accepts every value of that type", on the tracer models ----
+   For every type description and every collection of its values that covers it (Cov, C08): the tracer from_type ends with - the fully
+   explored tracer of the type, whose schema is the documented one - FITS every one of the values (C06's predicate: the shape of the
+   value at every position, every field / tuple position / variant present by index and name, nullable wherever the value has a None,
+   and at every leaf a primitive type whose builder accepts the scalar).  From C08 (the samples trace to that tracer up to counters),
+   C06 (every sample fits the tracer of its own collection) and the invariance of `fits` under forgetting the counters.  What this does
+   not give is the builder's acceptance itself (no general progress theorem for the builder model, see DESIGN): that part is the
+   round-trip oracle on the implementation. *)
+Theorem C04_type_schema_fits_its_values : forall o ty vs budget,
+  o_guess_dates o = false -> ok o 0 ty = true -> passes ty <= budget -> Cov ty vs ->
+  exists root, ft_loop o budget ty (TUnknown false) = Ok root /\ Forall (fun v => fits o v root) vs.
+Proof. exact from_type_accepts_its_values. Qed.
+
+Theorem C04_fits_ignores_counters : forall o v t t', norm t = norm t' -> fits o v t -> fits o v t'.
+Proof. exact fits_norm_eq. Qed.
+
+Theorem C04_covering_values_have_distinct_keys : forall o ty d vs, ok o d ty = true -> Cov ty vs -> Forall (ndk o) vs.
+Proof. exact cov_ndk. Qed.
+
+Print Assumptions C04_type_schema_fits_its_values.
 Print Assumptions C04_write_then_read.
 Print Assumptions C04_int_roundtrip_partial.
